@@ -226,7 +226,12 @@ def instances(tier):
     out.append(Inst(f'prefix[N={30 if q else 44}]', h_prefix, dict(N=30 if q else 44), timeout=3000, max_paths=100000))
     cfgs = [(3, 1, True, 'products'), (3, 1, False, 'products')] if q else \
         [(3, 1, True, 'products'), (3, 1, False, 'products'), (3, 1, True, 'inprod'), (4, 1, True, 'products'), (4, 1, False, 'inprod')]
-    cache = os.path.join(os.path.dirname(os.path.dirname(os.path.dirname(os.path.abspath(__file__)))), '.work', 'c36_bounds.json')
+    # frame boundaries of the reference runs are cached per version of the code they were measured on
+    import hashlib, importlib.util
+    from vf import runner
+    pkg = os.path.dirname(importlib.util.find_spec('mpyc').origin)
+    hsh = hashlib.sha256(b''.join(open(os.path.join(pkg, f), 'rb').read() for f in ('runtime.py', 'asyncoro.py', 'thresha.py', 'finfields.py'))).hexdigest()[:12]
+    cache = os.path.join(runner.WORK, f'c36_bounds_{hsh}.json')
     import json
     allb = {}
     if os.path.exists(cache):
